@@ -106,23 +106,26 @@ Inductive inl :=
 | IBox (ks : list inl)
 | IAtom.
 
+(* build.go:1675-1691: the loop over the children of a box; `rec` is
+   ProcessWhitespace itself (TextBox / InlineBox children), any other child
+   resets the flag *)
+Definition pw_list (rec : bool -> inl -> inl * bool) : bool -> list inl -> list inl * bool :=
+  fix go (f : bool) (l : list inl) {struct l} : list inl * bool :=
+    match l with
+    | [] => ([], f)
+    | k :: r =>
+        match k with
+        | IAtom => let '(r', f') := go false r in (IAtom :: r', f')
+        | _ => let '(k', f1) := rec f k in
+               let '(r', f2) := go f1 r in (k' :: r', f2)
+        end
+    end.
+
 (* build.go:1638-1693 (no running elements, everything in normal flow) *)
-Fixpoint pw (following : bool) (b : inl) : inl * bool :=
+Fixpoint pw (following : bool) (b : inl) {struct b} : inl * bool :=
   match b with
   | IText m t => let '(t', f') := process_text m following t in (IText m t', f')
-  | IBox ks =>
-      let '(ks', f') :=
-        (fix go (f : bool) (l : list inl) : list inl * bool :=
-           match l with
-           | [] => ([], f)
-           | k :: r =>
-               match k with
-               | IAtom => let '(r', f') := go false r in (IAtom :: r', f')
-               | _ => let '(k', f1) := pw f k in
-                      let '(r', f2) := go f1 r in (k' :: r', f2)
-               end
-           end) following ks in
-      (IBox ks', f')
+  | IBox ks => let '(ks', f') := pw_list pw following ks in (IBox ks', f')
   | IAtom => (IAtom, following)
   end.
 
